@@ -78,6 +78,17 @@ def dispatch (fields : List String) : Result :=
   match fields with
   | ["decode", hex, impl] => cmdDecode hex impl
   | ["encode", msg, impl] => cmdEncode msg impl
+  | ["table.code", c, _] =>
+    match c.toNat? with
+    | none => bad "code"
+    | some c =>
+      -- the codes are their own round trip in the model (types are their u16 codes)
+      { model := s!"rt:{b2s (rtypeIsUnknown c)}/{c} qt:{b2s (qtypeIsUnknown c)}/{c} rc:{b2s (rclassIsUnknown c)}/{c} qc:{b2s (qclassIsUnknown c)}/{c} m:{b2s (rtypeMatches RT_A c)}{b2s (rtypeMatches RT_CNAME c)}{b2s (rclassMatches CLASS_IN c)}",
+        tags := if rtypeIsUnknown c then "unknown" else "known" }
+  | ["table.nibble", o, _] =>
+    match o.toNat? with
+    | none => bad "octet"
+    | some o => { model := s!"op:{opcodeFromU8 o} rc:{rcodeFromU8 o}", tags := "nibble" }
   | ["decode-deep", depth, _stack, hex, impl] =>
     match bytesOfHex hex with
     | none => bad "hex"
